@@ -31,4 +31,6 @@ WorkBound == [][ last'.op \in {"Get", "Put", "Remove"} => WorkOK("bt", M, last'.
 RECURSIVE CanonK(_, _)
 CanonK(t, x) == IF x = Nil THEN <<>> ELSE <<[j \in DOMAIN E(t, x) |-> E(t, x)[j][1]], [i \in 1..Len(C(t, x)) |-> CanonK(t, C(t, x)[i])]>>
 Fid == PrintT("S|" \o ToJson(CanonK(T, T.root)))
+\* every generated transition of the model as <<from, op, key, to>> (fidelity of the EDGES; always TRUE)
+FidEdge == PrintT("E|" \o ToJson(<<CanonK(T, T.root), last'.op, last'.k, CanonK(T', T'.root)>>))
 =============================================================================
